@@ -75,7 +75,7 @@ def _run(chk, tier):
     hand = []
     for k in (4, 5):
         for name, b, l, rm in c04_cases.handmade(k):
-            if name in ('insert_insert_similar', 'metadata_metadata'):   # (the LOCAL_/REMOTE_ attachment renamer is unreachable on the pinned code: KeyError, finding F13 of C03)
+            if name.startswith('insert_insert_similar') or name in ('metadata_metadata', 'attachment_attachment', 'attachment_added_both'):
                 hand.append((name, k, b, l, rm))
                 tasks.append({'op': 'merge', 'base': b, 'local': l, 'remote': rm, 'args': {'merge_strategy': 'inline'}})
     from props import c04 as c04mod
@@ -119,15 +119,16 @@ def _run(chk, tier):
         x = res[i]; i += 1
         if 'err' in x: chk.broken_obligation('correspondence:renderer-merge', {'triple': name, 'result': x}); continue
         decs = x['decisions']; merged = x['merged']
-        if name == 'insert_insert_similar':
+        if name.startswith('insert_insert_similar'):
             def one_cell(df): return isinstance(df, list) and len(df) == 1 and df[0].get('op') == 'addrange' and len(df[0]['valuelist']) == 1
             ds = [d for d in decs if d.get('common_path') == ['cells'] and d.get('action') == 'custom' and one_cell(d.get('local_diff'))
                   and one_cell(d.get('remote_diff')) and one_cell(d.get('custom_diff'))]
             if len(ds) != 1: chk.broken_obligation('correspondence:similar-insert', {'decisions': decs}); continue
             d = ds[0]
             lcell = d['local_diff'][0]['valuelist'][0]; rcell = d['remote_diff'][0]['valuelist'][0]
-            # the keys patched by the local->remote diff of the two cells: those whose values differ
-            keys = sorted(q for q in set(lcell) & set(rcell) if json.dumps(lcell[q], sort_keys=True) != json.dumps(rcell[q], sort_keys=True))
+            # the keys touched by the local->remote diff of the two cells: differing values, or present on one side only
+            keys = sorted(q for q in set(lcell) | set(rcell)
+                          if (q in lcell) != (q in rcell) or json.dumps(lcell[q], sort_keys=True) != json.dumps(rcell[q], sort_keys=True))
             cell = d['custom_diff'][0]['valuelist'][0]
             term = '(similar_insert_cell %s %s [%s] %s)' % (kv(lcell), kv(rcell), '; '.join(S(q) for q in keys), S(cell.get('source', '')))
             add('ob %s %s' % (term, J(cell)), (('similar_insert_cell', {'lcell': lcell, 'rcell': rcell, 'keys': keys}), 'eq', 1))
@@ -140,9 +141,11 @@ def _run(chk, tier):
                     chk.broken_obligation('correspondence:record-conflict', {'merged metadata': merged_md}); continue
                 term = '(record_conflicts %s %s %s)' % (kv(base_md), jl(rec['local_diff']), jl(rec['remote_diff']))
                 add('b (json_eqb %s %s)' % (term, J(merged_md)), (('record_conflicts', base_md), 'eq', 1))
-        elif name == 'attachment_attachment':
-            att = b_['cells'][0]['attachments']; key = sorted(att)[0]
+        elif name in ('attachment_attachment', 'attachment_added_both'):
+            att = b_['cells'][0].get('attachments', {}); key = 'image.png'
             lval = l_['cells'][0]['attachments'][key]; rval = rm_['cells'][0]['attachments'][key]
+            if 'attachments' not in merged['cells'][0]:
+                chk.broken_obligation('correspondence:rename-attachments', {'merged cell': merged['cells'][0]}); continue
             term = '(rename_attachments %s %s %s %s)' % (kv(att), S(key), J(lval), J(rval))
             add('b (json_eqb %s %s)' % (term, J(merged['cells'][0]['attachments'])), (('rename_attachments', att), 'eq', 1))
     try:
